@@ -29,9 +29,9 @@ class FilenameData(Data):
     _values: bytes | None
 
     def __init__(self, data_type: DataType, file_name=None, **kwargs):
-        if "public" not in kwargs and "Public" not in kwargs:
-            kwargs["public"] = False
+        public = kwargs.pop("public", kwargs.pop("Public", False))
         super().__init__(data_type, file_name=file_name, **kwargs)
+        self._public = bool(public)
 
     @classmethod
     def primitive_type(cls) -> PrimitiveTypeEnum:
